@@ -18,23 +18,27 @@ def ltAfter (lt : Option Nat) : Event → Option Nat
   | .tick s _ _ _ => some s
   | _ => lt
 
+/-- largest slot carried by an event so far -/
+def nowAfter (now : Nat) : Event → Nat
+  | .tick s _ _ _ => s
+  | .reorg s _ _ => max now s
+  | .indices c => max now c
+
 theorem envOK_cons {lt : Option Nat} {now : Nat} {e : Event} {es : List Event} (h : envOK lt now (e :: es) = true) :
-    now ≤ evSlot e ∧ (∀ t, lt = some t → ∀ s c r1 r2, e = .tick s c r1 r2 → t < s) ∧
-    envOK (ltAfter lt e) (evSlot e) es = true := by
+    (∀ s c r1 r2, e = .tick s c r1 r2 → now ≤ s ∧ ∀ t, lt = some t → t < s) ∧
+    envOK (ltAfter lt e) (nowAfter now e) es = true := by
   cases e with
   | tick s c r1 r2 =>
     simp only [envOK, Bool.and_eq_true, decide_eq_true_eq] at h
-    refine ⟨h.1.2, ?_, h.2⟩
-    intro t ht s' c' a b heq
+    refine ⟨?_, h.2⟩
+    intro s' c' a b heq
     cases heq
+    refine ⟨h.1.2, ?_⟩
+    intro t ht
     subst ht
     simpa using h.1.1
-  | reorg s p c =>
-    simp only [envOK, Bool.and_eq_true, decide_eq_true_eq] at h
-    exact ⟨h.1, fun _ _ _ _ _ _ hh => (nomatch hh), h.2⟩
-  | indices c =>
-    simp only [envOK, Bool.and_eq_true, decide_eq_true_eq] at h
-    exact ⟨h.1, fun _ _ _ _ _ _ hh => (nomatch hh), h.2⟩
+  | reorg s p c => exact ⟨fun _ _ _ _ hh => (nomatch hh), h⟩
+  | indices c => exact ⟨fun _ _ _ _ hh => (nomatch hh), h⟩
 
 /-- the descriptor the store must hold for an owed duty -/
 def covEntry (k : Kind) (K : Nat) (d : Duty) : Entry := ⟨K, if isSync k then 0 else d.slot, d.vidx, d.tag, true⟩
@@ -184,7 +188,8 @@ theorem attFetch_post (n : Net) (st : HState) (m : DMon) (ep : Nat) (r : FetchRe
   | noIdx => exact fetchPost_void _ _ _ _ _ _ rfl (fun _ => rfl)
   | fail => exact fetchPost_void _ _ _ _ _ _ rfl (fun _ => rfl)
   | ok c ds =>
-    apply fetchPost_ok .att n st m ep ep c ds (attEntry ep) st.store (fun x hx _ => hx)
+    apply fetchPost_ok .att n st m ep ep c ds (attEntry ep) (st.store.reset ep)
+      (fun x hx hne => mem_reset.mpr ⟨hx, hne⟩)
     · intro d; exact ⟨rfl, fun _ => rfl⟩
     · intro d d' h
       have := sameKey_iff.mp h
